@@ -356,6 +356,7 @@ func init() {
 			c.ServicePositions("C08")
 			c.ScatterIndexDiscipline("C08")
 			c.HandlerSignature("C08")
+			c.SuccessNeedsEverything("C08") // position i of the signature list is the signature made for request i (C06.O2/O3)
 			c.SignIffApproved("C08", nil)
 			c.ForkJoinRules("C08")
 		},
